@@ -168,8 +168,8 @@ class BaseMove(Generic[OperationType, ContextType]):
         if "operation" in kwargs:
             operation_data = kwargs["operation"]
 
-            operation_class: type[Operation] = get_typed_class(
-                operation_data["name"], Operation
+            operation_class: type[Operation | Integrator] = get_typed_class(
+                operation_data["name"], (Operation, Integrator)
             )
 
             kwargs["operation"] = operation_class.from_dict(operation_data)
